@@ -126,6 +126,24 @@ impl Shared {
         self.peer_send_bytes(f, cls)
     }
 
+    /// Only the first k bytes of a (valid) frame of length len arrive, then the stream ends.
+    pub fn peer_truncated(&mut self, len: usize, k: usize) -> bool {
+        let before = self.incoming.len();
+        if !self.peer_send(len, "pkt") {
+            return false;
+        }
+        let have = self.incoming.len() - before;
+        for _ in 0..have.saturating_sub(k) {
+            let _ = self.incoming.pop_back();
+        }
+        if let Some(f) = self.frames.last_mut() {
+            f.cls = "partial".to_string();
+            f.matched = true; // never delivered
+        }
+        self.eof = true;
+        true
+    }
+
     /// The peer produces exactly these bytes, which the harness classified as `cls`.
     pub fn peer_send_bytes(&mut self, f: Vec<u8>, cls: &str) -> bool {
         let (verdict, _) = standalone(&self.mode, &f);
@@ -153,6 +171,12 @@ impl Shared {
             },
             "close" => {
                 self.eof = true;
+                true
+            },
+            "sendp" => {
+                // the peer dies inside a frame: only the first k bytes of it arrive, then the stream ends
+                let (len, k) = ((st.n / 100) as usize, (st.n % 100) as usize);
+                self.peer_truncated(len, k);
                 true
             },
             _ => false,
@@ -314,6 +338,16 @@ impl Shared {
         // while the reader is blocked the peer sends one or more frames, or closes
         if self.rcfg.frames_left == 0 {
             if self.rcfg.close_at_end && !self.eof {
+                if self.rcfg.fixed.is_none() && self.rng.gen_bool(0.5) {
+                    // half of the sessions end with the peer dying in the middle of a frame
+                    let lens: Vec<usize> = self.pool.by_len.keys().copied().filter(|l| *l >= 8 && *l <= 96).collect();
+                    let len = lens[self.rng.gen_range(0..lens.len())];
+                    let k = self.rng.gen_range(1..len);
+                    if self.peer_truncated(len, k) {
+                        self.ev(json!({"ev": "PeerTrunc", "n": len, "k": k}));
+                        return;
+                    }
+                }
                 self.eof = true;
                 self.ev(json!({"ev": "PeerClose"}));
             }
